@@ -226,6 +226,56 @@ def run_driver(transcript, jobs=16):
     return res
 
 
+def run_harness_only(exe, suite, seed, tier, tag, extra=()):
+    """run a harness suite without the driver (cross-build comparisons)"""
+    os.makedirs(WORK, exist_ok=True)
+    tr = os.path.join(WORK, f"{tag}.tr")
+    st = os.path.join(WORK, f"{tag}.stats.json")
+    rc, out, w = sh([exe, suite, "--seed", str(seed), "--tier", tier, "--out", tr, "--stats", st, *extra], timeout=7200)
+    return rc == 0 and os.path.exists(tr), tr, out[-500:], w
+
+
+def _cases(path):
+    cases, order, cur = {}, [], None
+    with open(path) as f:
+        for l in f:
+            if l.startswith(("P ", "V ")):
+                continue
+            if l.startswith("C "):
+                cur = l.split()[1]
+                cases[cur] = [l]
+                order.append(cur)
+            elif cur is not None:
+                cases[cur].append(l)
+    return cases, order
+
+
+def compare_transcripts(a, b):
+    """bit-identity of two transcripts case by case, ignoring the P/V header lines.  Cases whose
+       constructor is refused (Err/panic) by the DEFAULT build are outside 'parameters that fit the
+       default type' and are skipped.  returns (lines compared, cases, skipped, None | dict)"""
+    ca, order = _cases(a)
+    cb, _ = _cases(b)
+    n = ncases = skipped = 0
+    for cid in order:
+        la = ca[cid]
+        lb = cb.get(cid)
+        ctor = next((l for l in la if l.startswith("N ")), None)
+        if ctor is not None and (" ; ok" not in ctor):
+            skipped += 1
+            continue
+        ncases += 1
+        if lb is None:
+            return n, ncases, skipped, {"line": 0, "case": cid, "a": la[0].strip()[:300], "b": "(case missing)"}
+        for i, (x, y) in enumerate(zip(la, lb)):
+            n += 1
+            if x != y:
+                return n, ncases, skipped, {"line": i + 1, "case": cid, "a": x.strip()[:400], "b": y.strip()[:400]}
+        if len(la) != len(lb):
+            return n, ncases, skipped, {"line": min(len(la), len(lb)) + 1, "case": cid, "a": f"{len(la)} lines", "b": f"{len(lb)} lines"}
+    return n, ncases, skipped, None
+
+
 def extract_case(transcript, case_id, upto_line=None):
     """the lines of one case (header .. failing line), for the replay file"""
     lines, cur, n, pline = [], None, 0, None
